@@ -1,7 +1,11 @@
 // C16 — PARENT side: generates scenario scripts (or takes them from VERIF_REPLAY), runs each one in a child
 // process (the test binary itself, TestVerifC16Child) on all cores, and writes one trace line per scenario:
 //
-//	<kind> <gen> <script…> => <status> <gates> <sync> <observable> <callbacks> <spans> <inject> pend=<…>
+//	<kind> <gen> <script…> => <status> <gates> <sync> <observable> <callbacks> <spans> <inject> pend=<…> oc=<…>
+//
+// oc = results of the OC / CC operations (overlapping collections of the recording delegate's two readers), one per
+// operation: `A=<points of reader 0's cycle>/B=<points of reader 1's cycle>~<cycles that differed from the first>`,
+// points = `<instrument>.<callback>.<value>` sorted, `;`-separated.
 //
 // kind `forced`: controlled schedule (gated installer, operations issued at the gates) — replayed step by step on
 // the Lean LTS; kind `stress`: free-running goroutines — judged by the Spec oracle only.
@@ -49,16 +53,16 @@ func runChild(script string, watchdogMs int) (obs string, raceReport string) {
 		}
 	}
 	if raceReport != "" {
-		return "race - - - - - - pend=-", raceReport
+		return "race - - - - - - pend=- oc=-", raceReport
 	}
 	if obs != "" {
 		if obs == "hang" {
-			obs = "hang - - - - - - pend=-"
+			obs = "hang - - - - - - pend=- oc=-"
 		}
 		return obs, ""
 	}
 	if ctx.Err() != nil {
-		return "hang - - - - - - pend=-", ""
+		return "hang - - - - - - pend=- oc=-", ""
 	}
 	class := "exit"
 	if i := strings.Index(all, "panic: "); i >= 0 {
@@ -76,9 +80,9 @@ func runChild(script string, watchdogMs int) (obs string, raceReport string) {
 			class = class[:60]
 		}
 	} else if strings.Contains(all, "fatal error: all goroutines are asleep") {
-		return "hang - - - - - - pend=-", ""
+		return "hang - - - - - - pend=- oc=-", ""
 	}
-	return "panic:" + class + " - - - - - - pend=-", ""
+	return "panic:" + class + " - - - - - - pend=- oc=-", ""
 }
 
 func TestVerifC16Global(t *testing.T) {
@@ -177,6 +181,7 @@ type gen struct {
 	lateCbs    []gCb
 	lateTrs    []int
 	late       bool
+	useRec     bool // the script installs the recording delegate (`W 1`): OC / CC are available
 }
 
 func (g *gen) emit(format string, a ...any) { g.ops = append(g.ops, fmt.Sprintf(format, a...)) }
@@ -234,7 +239,50 @@ func (g *gen) add() {
 	g.emit("A %d %d", vPick(g.r, c).id, 1+g.r.Intn(9))
 }
 
-func (g *gen) reg() {
+func (g *gen) reg() { g.regOn(-1) }
+
+// regBad: a callback on meter k that names an observable instrument of ANOTHER meter. The placeholder meter accepts
+// it silently; the SDK rejects it when the registration is forwarded during the installation (error path of
+// registration.setDelegate: reported to the global error handler, the remaining registrations are still forwarded).
+// Returns the meter, or -1.
+func (g *gen) regBad() int {
+	var obs []gInst
+	for _, i := range g.insts {
+		if i.kind >= 8 {
+			obs = append(obs, i)
+		}
+	}
+	if len(obs) == 0 || len(g.meters) < 2 {
+		return -1
+	}
+	foreign := vPick(g.r, obs)
+	var ks []int
+	for _, m := range g.meters {
+		if m != foreign.meter {
+			ks = append(ks, m)
+		}
+	}
+	if len(ks) == 0 {
+		return -1
+	}
+	k := vPick(g.r, ks)
+	// only foreign observables: the SDK registers nothing. (With a mix of own and foreign observables sdk/metric
+	// returns BOTH a live Registration and an error; see the remark in checks/C16.json → assumptions.)
+	sel := []string{strconv.Itoa(foreign.id)}
+	for _, i := range obs {
+		if i.meter == foreign.meter && i.id != foreign.id && g.r.Intn(3) == 0 {
+			sel = append(sel, strconv.Itoa(i.id))
+		}
+	}
+	c := g.nC
+	g.nC++
+	g.emit("RB %d %d %s", c, k, strings.Join(sel, ","))
+	g.cbs = append(g.cbs, gCb{c, k})
+	return k
+}
+
+// regOn registers a callback on meter pref if it has an observable instrument, else on a random meter that has one.
+func (g *gen) regOn(pref int) {
 	byMeter := map[int][]int{}
 	var ms []int
 	for _, i := range g.insts {
@@ -249,6 +297,9 @@ func (g *gen) reg() {
 		return
 	}
 	m := vPick(g.r, ms)
+	if len(byMeter[pref]) > 0 {
+		m = pref
+	}
 	var sel []string
 	for _, i := range byMeter[m] {
 		if g.r.Intn(2) == 0 || len(byMeter[m]) == 1 {
@@ -339,7 +390,11 @@ func (g *gen) selfSet() {
 }
 
 func (g *gen) inject() {
-	g.emit("P %d", g.nP)
+	if g.r.Intn(3) == 0 {
+		g.emit("PG %d", g.nP) // through the global value of the moment
+	} else {
+		g.emit("P %d", g.nP) // through the placeholder obtained before anything was set
+	}
 	g.nP++
 }
 
@@ -395,6 +450,17 @@ func (g *gen) prePhase() {
 	for k := g.r.Intn(4); k > 0; k-- {
 		g.reg()
 	}
+	// a registration the SDK will reject, with further (good) registrations on the same meter behind it
+	if g.r.Intn(5) == 0 {
+		if k := g.regBad(); k >= 0 {
+			if g.r.Intn(4) > 0 {
+				g.newInst(1)
+			}
+			for j := g.r.Intn(3); j > 0; j-- {
+				g.regOn(k)
+			}
+		}
+	}
 	// placeholder spans whose contexts outlive the installation (long-running workers, base contexts)
 	for _, t := range g.trs {
 		if g.r.Intn(3) > 0 {
@@ -446,6 +512,18 @@ func (g *gen) postPhase() {
 	for k := g.r.Intn(8); k > 0; k-- {
 		g.anyOp()
 	}
+	// the delegate's two readers collect at overlapping times: inside a callback registered through the global API
+	// (mostly before the installation), forced with a gate; then once more after an Unregister; free-running cycles
+	if len(g.cbs) > 0 && g.r.Intn(4) > 0 {
+		g.emit("OC %d", vPick(g.r, g.cbs).id)
+		if g.r.Intn(3) == 0 {
+			g.unreg()
+			g.emit("OC %d", vPick(g.r, g.cbs).id)
+		}
+		if g.r.Intn(4) == 0 {
+			g.emit("CC %d", 5+g.r.Intn(20))
+		}
+	}
 	g.inject()
 }
 
@@ -462,12 +540,20 @@ func (g *gen) forced() *scen {
 	tag := "gm1"
 	if r.Intn(2) == 0 {
 		g.emit("W 1") // delegate with one Go type per instrument kind
+		g.useRec = true
 	}
 	g.prePhase()
 	otherPlain := func() {
 		// the providers that are not gated in this scenario are installed plainly at a random moment, or never
 		if r.Intn(3) > 0 {
+			if r.Intn(4) == 0 {
+				g.emit("IP2") // another propagator is set first …
+			}
 			g.emit("IP")
+			if r.Intn(5) == 0 {
+				g.emit("IP2") // … or later: stored, but the placeholder does not re-delegate
+				g.inject()
+			}
 		}
 	}
 	if r.Intn(2) == 0 {
@@ -524,6 +610,10 @@ func (g *gen) forced() *scen {
 				} else if !gatedTracer && g.nM < 5 {
 					g.newMeter()
 				}
+			case x < 8 && !gatedTracer && len(g.cbs) > 0:
+				// the delegate's readers collect while the installation is parked: the callbacks the SDK already
+				// holds are invoked (their instruments have delegates by then), the others are not
+				g.emit("OC %d", vPick(g.r, g.cbs).id)
 			default:
 				g.anyOp()
 			}
@@ -559,6 +649,7 @@ func (g *gen) stress() *scen {
 	r := g.r
 	if r.Intn(2) == 0 {
 		g.emit("W 1")
+		g.useRec = true
 	}
 	g.prePhase()
 	nth := 2 + r.Intn(3)
@@ -622,6 +713,12 @@ func (g *gen) stress() *scen {
 	}
 	if r.Intn(2) == 0 {
 		g.emit("IP")
+		if r.Intn(4) == 0 {
+			g.emit("IP2")
+			g.inject()
+		}
+	} else if r.Intn(6) == 0 {
+		g.emit("IP2")
 	}
 	g.postPhase()
 	return &scen{kind: "stress", gen: "t" + strconv.Itoa(nth), script: strings.Join(g.ops, " | ")}
